@@ -1,5 +1,6 @@
 import Cactus.Lemmas.Final
 import Cactus.Lemmas.Basic
+import Cactus.Lemmas.Contract   -- `run_reachableC` (non-vacuity of `C06_held_object_count_positive`)
 /-!
 # C06 — reference counts and identity are exact
 
@@ -96,6 +97,20 @@ theorem C06_counts_exact_quiescent {s : State} (h : Reachable s) (he : s.err = n
   simp [State.pend, State.pendW, hq, State.sumList] at this
   exact this
 
+/-- **C06 (an object to which handles exist never reads zero).** Under the adoption contract, in
+every state of every execution (mid-teardown included): an object the program can reach — through a
+handle it holds or through handles stored in reachable values, adopted or not — has a positive strong
+count, and that count is exactly the number of existing handles.  This is the theorem behind the
+oracle line `O6:held-object-destroyed-with-k-handles`: a group teardown that decrements a survivor
+(seeded m06, m62, m94) makes the implementation leave this set of states. -/
+theorem C06_held_object_count_positive {s : State} (h : ReachableP s) (he : s.err = none) {o : Nat}
+    (hr : s.Reach o) :
+    0 < s.strongNat o ∧ s.strongNat o = s.ext o + s.inHeap o + s.pend o := by
+  have hlive := reach_live (reachableP_invS h he) hr
+  obtain ⟨ob, n, hg, _, hs⟩ := (State.isLive_eq_true_iff s o).mp hlive
+  refine ⟨?_, (C06_counts_exact h.reachable he hlive).1⟩
+  simp [State.strongNat, hg, hs]
+
 /-! ## Non-vacuity: every kind of handle at once
 
 Object 1 is designated by a program handle, a handle stored in object 0's value (adopted), a handle
@@ -131,5 +146,14 @@ example : let s := run countsHistory
     ∧ s.weakNat 1 = 3 ∧ s.extW 1 = 1 ∧ s.inHeapW 1 = 1
     ∧ s.log = [.freed 3, .ret 1, .ret 5, .ret 2] := by
   decide +kernel
+
+/-- non-vacuity of `C06_held_object_count_positive`: `countsHistory` respects the contract, object 1
+is held by the program, and the theorem gives its count (5, see above) as positive and exact -/
+example : 0 < (run countsHistory).strongNat 1
+    ∧ (run countsHistory).strongNat 1
+        = (run countsHistory).ext 1 + (run countsHistory).inHeap 1 + (run countsHistory).pend 1 :=
+  C06_held_object_count_positive
+    ((run_reachableC countsHistory (by decide)).reachableP (by decide +kernel))
+    (by decide +kernel) (.root (by decide +kernel))
 
 end Cactus
